@@ -202,17 +202,13 @@ var zzHeaderUniverse = []string{"authorization", "x-a", "x-b", "x-c"}
 func zzH_C02_api() {
 	thorough := zzTier() >= 1
 	l := zzBaseLimits()
-	ql := zzQuickLimits()
 	in := zzIntent{origin: zzAllowedOrigin, method: "GET"}
 	perturb := 0
 	focus := zzChoose(3)
 	var c *zzCfg
 	switch focus {
 	case 0: // methods
-		l.methods = ql.methods
-		if thorough {
-			l.methods = len(zzMethodMenus)
-		}
+		l.methods = len(zzMethodMenus)
 		c = zzDrawCfg(l)
 		c.cfg.Credentialed = zzBool()
 		in.method = zzString(6)
